@@ -72,6 +72,10 @@ def build_route(exe, rng, idx):
         if h.s.dead:
             break
         u = user_variants(rng, vals)
+        if not c["rwuser"] and b"\x00" not in u:
+            for v in vals:      # reference answers of the C library for the /regex/ realms on this very User-Name
+                if v.startswith(b"/"):
+                    h.send("rxeval %s %s" % (W.realm_pattern(v).hex() or "-", u.hex() or "-"))
         out = h.rq(0, h.make_request(0, code=rng.choice([1, 1, 4]), user=u, ident=step % 256, extra=[], pwd=False))
         if rng.random() < 0.4:
             h.send("pop 0")
